@@ -193,6 +193,7 @@ type scase struct {
 	Era    int    `json:"era"`
 	TwoIn  bool   `json:"two_inputs"`
 	TwoOut bool   `json:"two_outputs"`
+	Tok1   bool   `json:"u1_carries_token"` // u1 carries 2 of (P1,A): with two inputs the same asset is consumed twice
 	Fee    uint64 `json:"fee"`
 	Wd     int64  `json:"withdrawal"` // -1 absent
 	Certs  []int  `json:"cert_kinds"`
@@ -303,7 +304,12 @@ func build(v vcase, u *universe, seed int64, signed bool) built {
 	if s.Era == EraShelley {
 		rec.TTL = U64(1 << 40)
 	}
-	if err := ls.AddUtxo(s.Era, in1, Out{Addr: EnterpriseAddr(u.pay), Coin: u1Coin}); err != nil {
+	o1 := Out{Addr: EnterpriseAddr(u.pay), Coin: u1Coin}
+	if s.Tok1 && s.Era >= EraMary {
+		o1.Assets = []Asset{{polP1, []byte("A"), 2}}
+		b.inAssets[aid{polP1, "A"}] += 2
+	}
+	if err := ls.AddUtxo(s.Era, in1, o1); err != nil {
 		panic(err)
 	}
 	b.inCoins = append(b.inCoins, u1Coin)
@@ -311,7 +317,7 @@ func build(v vcase, u *universe, seed int64, signed bool) built {
 		o2 := Out{Addr: EnterpriseAddr(u.pay), Coin: u2Coin}
 		if s.Era >= EraMary {
 			o2.Assets = []Asset{{polP1, []byte("A"), 7}}
-			b.inAssets[aid{polP1, "A"}] = 7
+			b.inAssets[aid{polP1, "A"}] += 7
 		}
 		if err := ls.AddUtxo(s.Era, in2, o2); err != nil {
 			panic(err)
@@ -531,7 +537,11 @@ func main() {
 										if len(cs) > 0 && (mi > 2 || !c.Thorough() && mi > 1) {
 											continue // the exotic mint variants are crossed with certificate-free structures only
 										}
-										structs = append(structs, scase{era, twoIn, twoOut, fee, wd, cs, prop, don, mi})
+										structs = append(structs, scase{era, twoIn, twoOut, false, fee, wd, cs, prop, don, mi})
+										if era >= EraMary && len(cs) == 0 {
+											// the same asset on two inputs / on an input and in the mint
+											structs = append(structs, scase{era, twoIn, twoOut, true, fee, wd, cs, prop, don, mi})
+										}
 									}
 								}
 							}
@@ -652,25 +662,48 @@ func main() {
 		if err != nil {
 			return
 		}
-		func() {
+		// validation must be a pure function of (tx, state): the conservation rule is evaluated
+		// three times on the SAME state object (directly, inside the era list, directly again) and
+		// the state is dumped before and after
+		direct := func() (es string) {
 			defer func() {
 				if p := recover(); p != nil {
-					r.dirErr = fmt.Sprintf("panic: %v", p)
+					es = fmt.Sprintf("panic: %v", p)
 				}
 			}()
 			if e := directRule(v.S.Era)(tx, 100, b.ls, b.pp); e != nil {
-				r.dirErr = errStr(e)
+				return errStr(e)
 			}
-		}()
+			return ""
+		}
+		dump0 := b.ls.Dump()
+		r.dirErr = direct()
 		r.dirAcc = r.dirErr == ""
 		// rejections by rules that also reject the balanced variant are unrelated to the balance -
 		// except the conservation rule itself, whose verdict on this variant always counts
 		consName := RuleName(directRule(v.S.Era))
 		bf := FailSet(br.fails)
+		inList, listCons := false, ""
+		for _, f := range Rules(v.S.Era) {
+			if RuleName(f) == consName {
+				inList = true
+			}
+		}
 		for _, x := range RunList(Rules(v.S.Era), tx, 100, b.ls, b.pp) {
+			if x.Name == consName {
+				listCons = errStr(x.Err)
+			}
 			if _, inBase := bf[x.Name]; !inBase || x.Name == consName {
 				r.attr = append(r.attr, x)
 			}
+		}
+		again := direct()
+		dump1 := b.ls.Dump()
+		if dump0 != dump1 {
+			r.mutated, r.dumpBefore, r.dumpAfter = true, dump0, dump1
+		}
+		if again != r.dirErr || inList && listCons != r.dirErr {
+			r.reeval = fmt.Sprintf("1st direct call: %q; inside the era list: %q; 3rd (direct) call: %q", r.dirErr, listCons, again)
 		}
 		r.listAcc = len(r.attr) == 0
 	})
@@ -714,11 +747,28 @@ func main() {
 			c.Eval("", "decoder-rejects-variant")
 			continue
 		}
+		if r.mutated || r.reeval != "" {
+			replay["state_before"], replay["state_after"], replay["verdicts"] = r.dumpBefore, r.dumpAfter, r.reeval
+			twice := "no"
+			if n := len(s.terms()); n >= 0 && (s.TwoIn && s.Tok1 && s.Era >= EraMary || s.TwoIn && mv.qty != 0 && mv.asset == (aid{polP1, "A"}) || s.Tok1 && mv.qty != 0 && mv.asset == (aid{polP1, "A"})) {
+				twice = "yes"
+			}
+			c.Eval("purity|"+en+"|same-asset-twice-on-consumed-side="+twice, fmt.Sprintf("state-mutated=%v/verdict-changes=%v", r.mutated, r.reeval != ""))
+			if r.mutated {
+				c.Violation(fmt.Sprintf("conservation|era=%s|state-mutated-by-validation", en),
+					fmt.Sprintf("validating the transaction changed the ledger state (certs %s, mint %s, same asset twice on the consumed side: %s): before %q after %q", certNames(s.Certs), mv.name, twice, r.dumpBefore, r.dumpAfter), replay)
+			}
+			if r.reeval != "" {
+				c.Violation(fmt.Sprintf("conservation|era=%s|verdict-changes-on-re-evaluation", en),
+					fmt.Sprintf("the same transaction on the same state object gets different verdicts (certs %s, mint %s, same asset twice on the consumed side: %s): %s", certNames(s.Certs), mv.name, twice, r.reeval), replay)
+			}
+			continue
+		}
 		balanced := r.coinOK && r.assetsOK
 		if balanced != (v.Delta == 0 && v.ADelta == 0) {
 			c.Internal("generator and oracle disagree on %+v: %s", v, r.detail)
 		}
-		cls := fmt.Sprintf("%s|in2=%v|out2=%v|wd=%v|certs=%s|prop=%v|don=%v|mint=%s|coin%s|asset:%s", en, s.TwoIn, s.TwoOut, s.Wd >= 0, certNames(s.Certs), s.Prop, s.Don, mv.name, v.Term, assetDeltas[v.ADelta])
+		cls := fmt.Sprintf("%s|in2=%v|out2=%v|tok1=%v|wd=%v|certs=%s|prop=%v|don=%v|mint=%s|coin%s|asset:%s", en, s.TwoIn, s.TwoOut, s.Tok1, s.Wd >= 0, certNames(s.Certs), s.Prop, s.Don, mv.name, v.Term, assetDeltas[v.ADelta])
 		c.Eval(cls, fmt.Sprintf("oracle-balanced=%v/rule-accepts=%v/list-accepts=%v", balanced, r.dirAcc, r.listAcc))
 		if i < 2 || s.Era == EraConway && len(s.Certs) == 1 && s.Certs[0] == kindIdx("reg_drep(16)") && s.Mint == 1 && s.TwoIn && s.TwoOut && s.Prop && s.Don && s.Wd >= 0 && s.Fee == 1 && (v.Delta == 0 || v.Term == "+deposit:reg_drep(16)") && v.ADelta <= 1 {
 			c.Sample(replay)
